@@ -103,6 +103,16 @@ MODELLED2 = [
     "get_procedure_subprogram_body",
     # Extract5.lean
     "get_tokens_starting_with_token_and_ending_with_one_of_possible_tokens",
+    # Extract6.lean (WP3b)
+    "get_line_below_line_ending_with_several_possible_tokens",
+    "get_blank_lines_below_line_ending_with_several_possible_tokens",
+    "get_column_of_token_index",
+    "get_consecutive_lines_starting_with_token",
+    "get_consecutive_lines_starting_with_token_and_stopping_when_token_starting_line_is_found",
+    # Extract7.lean (WP3b)
+    "get_tokens_in_declarative_parts",
+    # Extract8.lean (WP3b)
+    "get_blank_lines_above_line_starting_with_use_clause",
 ]
 
 
@@ -190,7 +200,44 @@ def enc_extract2(name, a, ci):
         return ["get_subprogram_body_of", _cls(ci, token.subprogram_declaration.semicolon), _cls(ci, token.subprogram_body.semicolon), _cls(ci, token.procedure_specification.procedure_keyword), _cls(ci, token.function_specification.function_keyword), _cls(ci, kw), _cls(ci, sp.designator)]
     if name == "get_tokens_starting_with_token_and_ending_with_one_of_possible_tokens":
         return [name, _clist(ci, a["lStartTokens"]), _clist(ci, a["lEndTokens"]), _pcls(ci), _b(a["bIncludeStartToken"]), _b(a["bIncludeEndToken"]), _b(a["bEarliestDetect"])]
+    # ---- Extract6.lean (WP3b)
+    if name in ("get_line_below_line_ending_with_several_possible_tokens", "get_blank_lines_below_line_ending_with_several_possible_tokens"):
+        lt = a["lTokens"]
+        return [name, _cls(ci, lt[0]), _clist(ci, lt[1:])]
+    if name == "get_column_of_token_index":
+        i = a["iToken"]
+        if not isinstance(i, int) or isinstance(i, bool):
+            raise ValueError("not an int")
+        return [name, str(i)]
+    if name == "get_consecutive_lines_starting_with_token":
+        return [name, _cls(ci, a["search_token"]), _nat(a["min_num_lines"])]
+    if name == "get_consecutive_lines_starting_with_token_and_stopping_when_token_starting_line_is_found":
+        return [name, _cls(ci, a["search_token"]), _cls(ci, a["stop_token"])]
+    if name == "get_blank_lines_above_line_starting_with_use_clause":
+        semis = [token.context_reference.semicolon, token.entity_declaration.semicolon, token.configuration_declaration.semicolon, token.package_declaration.semicolon, token.package_instantiation_declaration.semicolon, token.context_declaration.semicolon, token.architecture_body.semicolon, token.package_body.semicolon]
+        return [name, _clist(ci, a["lTokens"]), _clist(ci, semis), _cls(ci, token.use_clause.library_name)]
+    if name == "get_tokens_in_declarative_parts":
+        import importlib
+
+        ks = []
+        for part in ("protected_type_body", "architecture", "package_body", "subprogram", "package", "process", "entity", "block"):
+            m = importlib.import_module("vsg.vhdlFile.extract.get_tokens_in_%s_declarative_part" % part)
+            ks.append((m.oStart, m.oEnd))
+        return [name, _pairs(ci, ks)]
     return None
+
+
+# extractors whose model reads `len(oToken.get_value())`
+WITH_LEN = {"get_lines_with_length_that_exceed_column", "get_column_of_token_index"}
+# extractors that return an int, not regions
+INT_RESULT = {"get_column_of_token_index"}
+
+
+def canon_result(S, name, r, lt):
+    """canonical form of what a real extractor returned"""
+    if name in INT_RESULT:
+        return "ok %s" % (r,)
+    return "ok " + ";".join(canon_toi2(S, name, t) for t in lt)
 
 
 def _h(s):
@@ -207,16 +254,34 @@ def canon_toi2(S, name, t):
         v = META_INT[name](t)
         toks = ".".join("b" if S.is_bof(o) else str(S.serial(o)) for o in t.lTokens)
         return "%s,%s,%s,%s" % ("N" if t.iStartIndex is None else t.iStartIndex, t.iLine, "N" if v is None else v, toks)
+    if name == USE_CLAUSE:  # WP3b: dMetaData previous_library / current_library (lower-cased token values)
+        p, c = t.dMetaData.get("previous_library"), t.dMetaData.get("current_library")
+        toks = ".".join("b" if S.is_bof(o) else str(S.serial(o)) for o in t.lTokens)
+        return "%s,%s,%s/%s,%s" % ("N" if t.iStartIndex is None else t.iStartIndex, t.iLine, "N" if p is None else _h(p), "N" if c is None else _h(c), toks)
     return S.canon_toi(t)
+
+
+USE_CLAUSE = "get_blank_lines_above_line_starting_with_use_clause"
 
 
 def snapshot(name, lAll):
     """the token values as they are at the call (a later fix may change them before the reply is compared)"""
-    return [o.get_value() for o in lAll] if name in VALUE_TOKEN else None
+    return [o.get_value() for o in lAll] if (name in VALUE_TOKEN or name == USE_CLAUSE) else None
 
 
 def fix_model(name, model, lAll):
     """the model's `value` is a position for the VALUE_TOKEN extractors: replaced by the hash of that token's value"""
+    if name == USE_CLAUSE and model.startswith("ok ") and model[3:]:
+        out = []
+        for item in model[3:].split(";"):
+            f = item.split(",")
+            if len(f) == 4 and "/" in f[2]:
+                try:
+                    f[2] = "/".join("N" if x == "N" else _h(lAll[int(x)].lower()) for x in f[2].split("/"))
+                except (IndexError, ValueError):
+                    f[2] = "?"
+            out.append(",".join(f))
+        return "ok " + ";".join(out)
     if name not in VALUE_TOKEN or not model.startswith("ok "):
         return model
     out = []
@@ -268,12 +333,12 @@ def eval_both(P, S, name, lAll, kw):
     try:
         r = fn(**full)
         lt = P.flatten_tois(r)
-        real = "ok " + ";".join(canon_toi2(S, name, t) for t in lt)
+        real = canon_result(S, name, r, lt)
     except P.PY_ERRORS as e:
         real = "raise " + type(e).__name__
     except UnboundLocalError:
         real = "raise UnboundLocalError"
-    S.sync_tokens(lAll, with_hier=(name in HIER))
+    S.sync_tokens(lAll, with_len=(name in WITH_LEN), with_hier=(name in HIER))
     S.drv.send("REINDEX")
     model = fix_model(name, S.ask("EXTRACT\t" + "\t".join(wire)), [o.get_value() for o in lAll])
     bad = []
@@ -320,6 +385,8 @@ def witnesses():
         ("associationElements_restart", [(pm.open_parenthesis, "("), (ae.formal_part, "a"), (ae.formal_part, "b"), (token.association_list.comma, ","), (pm.close_parenthesis, ")"), (cr, None)], "get_association_elements_between_tokens", {"oStart": pm.open_parenthesis, "oEnd": pm.close_parenthesis}, "ok 2,1,N,{1}.{2}.{3}"),
         # startingEnding_blank_region_empty (the former witness startingEnding_blank_region, repaired in /repo): the empty slice at the end token
         ("startingEnding_blank_region_empty", [(kw, "x"), (ws, " "), (parser.comment, "-- c"), (comma, ","), (cr, None)], "get_tokens_starting_with_token_and_ending_with_one_of_possible_tokens", {"lStartTokens": [kw], "lEndTokens": [comma], "bIncludeStartToken": False, "bIncludeEndToken": False, "bEarliestDetect": False}, "ok 3,1,N,"),
+        # WP3b: columnOf_first_line — every token of the first line has column 0 (true column 3 here)
+        ("columnOf_first_line", [(kw, "ab"), (ws, " "), (kw, "cd"), (cr, None), (kw, "x"), (cr, None)], "get_column_of_token_index", {"iToken": 2}, "ok 0"),
         # the real extractor raises UnboundLocalError; the model answers `outside` (7th element: expected model reply)
         ("subprogramBody_unbound_witness", [(token.function_specification.function_keyword, "function"), (token.function_specification.designator, "f"), (token.subprogram_body.semicolon, ";"), (cr, None)], "get_function_subprogram_body", {}, "raise UnboundLocalError", "outside"),
     ]
@@ -403,6 +470,32 @@ def run_synthetic(job, P, S, out):
     st = out["stats"]
     notslice = collections.Counter()
     examples = {}
+    # WP3b: extractors no default-configured rule reaches — called directly, on the whole file and on the windows
+    from vsg import token as _tk
+
+    extra = []
+    for name, kw in [(USE_CLAUSE, {"lTokens": [_tk.use_clause.keyword]}), (USE_CLAUSE, {"lTokens": [_tk.use_clause.keyword, _tk.library_clause.keyword]}), ("get_consecutive_lines_starting_with_token", {"search_token": _tk.use_clause.keyword, "min_num_lines": 2}), ("get_consecutive_lines_starting_with_token", {"search_token": _tk.signal_declaration.signal_keyword, "min_num_lines": 1}),
+                     ("get_blank_lines_below_line_ending_with_several_possible_tokens", {"lTokens": [_tk.block_statement.block_keyword, _tk.block_statement.guard_close_parenthesis, _tk.block_statement.is_keyword]}),
+                     ("get_blank_lines_below_line_ending_with_several_possible_tokens", {"lTokens": [_tk.process_statement.process_keyword, _tk.process_statement.close_parenthesis, _tk.process_statement.is_keyword]}),
+                     ("get_line_below_line_ending_with_several_possible_tokens", {"lTokens": [_tk.process_statement.process_keyword, _tk.process_statement.close_parenthesis, _tk.process_statement.is_keyword]})]:
+        if name in names:
+            fn, full = _real_call(name, lAll, None, kw)
+            wire = P.enc_extract(name, fn, S.ci, (), full)
+            if wire is not None:
+                calls.setdefault(tuple(wire), (name, kw))
+                extra.append((name, kw))
+    for name, kw in extra:
+        wire, real, model, bad = eval_both(P, S, name, lAll, kw)
+        st["synthetic_calls"] += 1
+        out["fnstats"]["direct:" + name] += 1
+        if real.startswith("raise"):
+            out["fnstats"]["direct-raising:" + name] += 1
+        elif real != "ok ":
+            out["fnstats"]["direct-nonempty:" + name] += 1
+        if real != model:
+            out["breaks"].append({"what": "correspondence extractor %s (direct call on a parsed file)" % name, "detail": {"job": out["job"], "args": list(wire), "model": model[:300], "real": real[:300]}})
+        if bad:
+            notslice[name] += len(bad)
     for m in range(job.get("nmut", 6)):
         # a window of the real token list, with a few tokens dropped: unusual but type-correct sequences
         n = rng.choice([3, 8, 20, 60, 200])
@@ -436,10 +529,20 @@ def run_synthetic(job, P, S, out):
     return out
 
 
+# WP3b: texts that make the extractors no default-configured rule reaches deliver regions
+DIRECTED_TEXTS = [
+    "library ieee;\n  use ieee.std_logic_1164.all;\n\n  use ieee.numeric_std.all;\n\nlibrary work;\n\n  use work.pkg.all;\n\n\n  use work.other.all;\n  use ieee.math_real.all;\n\nentity e is\nend entity e;\n\nlibrary ieee;\n\n  use ieee.std_logic_1164.all;\n\narchitecture a of e is\n\n  signal s : std_logic;\n  signal t : std_logic;\n\n  signal u : std_logic;\n\nbegin\n\nend architecture a;\n",
+    "architecture a of e is\nbegin\n  b1 : block is\n\n\n    signal s : bit;\n  begin\n  end block b1;\n  p1 : process (clk) is\n\n  begin\n  end process p1;\nend architecture a;\n",
+    "context c1 is\n  library ieee;\n\n  use ieee.std_logic_1164.all;\nend context c1;\n\n  use work.a.all;\n\npackage p is\nend package p;\n\n  use work.b.all;\n",
+]
+
+
 def extra_jobs(tier, sample, seedv):
     """the witness job and the synthetic-token-list jobs appended to the C18 job list"""
     n = 30 if tier == "quick" else 400
     jobs = [{"wp3": "witness", "features": []}]
+    for k, text in enumerate(DIRECTED_TEXTS):  # WP3b
+        jobs.append({"wp3": "synthetic", "text": text, "variant": "orig", "config": "default", "features": [], "nmut": 12, "sseed": seedv + k})
     for i, p in enumerate(sample[:n]):
         jobs.append({"wp3": "synthetic", "path": p, "variant": "orig", "config": "default", "features": [], "nmut": 6, "sseed": seedv})
     return jobs
